@@ -502,6 +502,28 @@ func TestHarness(t *testing.T) {
 				}
 				for i := 0; i < 60 && r.fail == nil; i++ {
 					l := g.next(r)
+					if try%4 == 2 && len(qs) > 0 {
+						// priority sweep (C04): requests of every priority in sibling and nested invocations of
+						// the first queue, alternating with workers asking for work, so that a wrong order or a
+						// wrongly cached priority left behind by the prefix decides a hand-out
+						if i%3 == 0 {
+							q := qs[0]
+							// the queue the prefix's last request went to
+							for k := len(prefix) - 1; k >= 0; k-- {
+								if f := strings.Fields(prefix[k]); len(f) > 5 && f[1] == "exec" {
+									q = queueSpec{comps: f[4], plat: atoi(f[3]) % 2}
+									break
+								}
+							}
+							g.nextC++
+							l = fmt.Sprintf("0 exec %d %d %s %s %d sel=0 bg=- retry=0 dur=%d", g.nextC, 4+q.plat, q.comps,
+								invPool[1+(i/3)%(len(invPool)-1)], prioPool[g.rng.Intn(len(prioPool))], g.rng.Intn(4))
+						} else {
+							for k := 0; k < 8 && !strings.Contains(l, " sync "); k++ {
+								l = g.next(r)
+							}
+						}
+					}
 					lines = append(lines, l)
 					r.apply(l)
 				}
